@@ -10,11 +10,17 @@ from functools import partial
 from typing import Any, Callable, TypeVar, Union, get_type_hints
 
 from attrs import has as attrs_has
-from attrs import resolve_types
 from msgspec import Struct, convert, to_builtins
 from msgspec.json import Encoder, decode
 
-from .._compat import fields, get_args, get_origin, is_bare, is_mapping, is_sequence
+from .._compat import (
+    adapted_fields,
+    get_args,
+    get_origin,
+    is_bare,
+    is_mapping,
+    is_sequence,
+)
 from ..cols import is_namedtuple
 from ..converters import BaseConverter, Converter
 from ..dispatch import UnstructureHook
@@ -165,10 +171,8 @@ def msgspec_attrs_unstructure_factory(
             private attributes, making us do the work.
     """
     origin = get_origin(type)
-    attribs = fields(origin or type)
-    if attrs_has(type) and any(isinstance(a.type, str) for a in attribs):
-        resolve_types(type)
-        attribs = fields(origin or type)
+    # `adapted_fields` resolves stringified annotations of attrs classes and dataclasses.
+    attribs = adapted_fields(origin or type)
 
     if any(
         (msgspec_skips_private and attr.name.startswith("_"))
